@@ -125,6 +125,7 @@ Section Html.
         | None => HPanic                                    (* .unwrap() *)
         | Some element_name =>
             if (N.eqb p (n_xml_prefix nm) && N.eqb ns (n_xml_ns nm))
+               || (negb (N.eqb p ep) && N.eqb ns nn)
                || (N.eqb p ep && negb (N.eqb (n_ns_of_name nm element_name) ns))
                || (negb (N.eqb p ep) && must_be_unprefixed ns
                    && negb (existsb (fun a => N.eqb (n_ns_of_name nm (fst a)) ns) (attr_pairs z)))
